@@ -128,7 +128,27 @@ def gen_infinite(seed, idx):
     t = gap
     ops = []
     state = {"A": "run", "B": "run"}
-    for j in range(r.randint(1, 5)):
+    quiet_after = False
+    if r.random() < 0.3:
+        # a graceful stop of either side in the very instant (before or after, same loop iteration) a datagram of the
+        # peer arrives - among them the one through which the watcher learns of the service - and a start later on
+        # (no jitter here: with answers still in flight a unicast Offer overtaken by the multicast StopOffer is a
+        # reordering, which the infinite-TTL clause excludes - nothing would ever repair the stale offer)
+        net["jitter"] = 0.0
+        pre = pair.execute({"engine": "pair", "seed": seed, "cfg": cfg, "ops": [], "until": 3.0})
+        n = r.choice("BBA")
+        arr = sorted({e[2] for e in pre.log if e[4] == "rx" and e[3].startswith(n) and e[5][1][0] != pair.ADDR[n][0]})
+        if arr:
+            tt = arr[0] if r.random() < 0.6 else r.choice(arr[:4])
+            ops.append({"k": "node", "t": tt, "n": n, "f": "stop", "late": r.random() < 0.7})
+            quiet_after = r.random() < 0.5
+            if r.random() < 0.6:
+                ops.append({"k": "node", "t": round(tt + gap + r.uniform(0, 1.0), 6), "n": n, "f": "start"})
+                t = ops[-1]["t"] + gap
+            else:
+                state[n] = "stopped"
+                t = tt + gap
+    for j in range(r.randint(1, 5) if not quiet_after else 0):
         n = r.choice("AB")
         if state[n] == "run":
             f = r.choice(["stop", "crash"])
